@@ -273,3 +273,57 @@ def run_cfg_mirror(prog):
                      "ParserState.%s is not initialised from the defcfg option `%s` (it keeps ParserState::default()): the option is "
                      "parsed and then ignored by the action parsers" % (name, src))
     return res
+
+
+VARS_NONE_OK = {
+    # function -> (number of atom/list calls without the variable table, why)
+    CFG + "chord::parse_defchordv2": (1, "the top-level keyword `defchordsv2` itself"),
+    CFG + "parse_layer_indexes": (1, "tells `(deflayer (name opts..))` from an accidental parenthesis; the name is then read with the table"),
+    CFG + "zippychord::inner::parse_zippy_inner": (2, "the top-level keyword, and the single character of an output-character-mapping pair "
+                                                      "(a literal character, documented as such)"),
+}
+
+
+def run_vars_passed(prog):
+    """R-VARS-PASSED (C16): where the variable table is at hand, expressions are read through it.
+
+    `expr.atom(vars)` / `expr.list(vars)` replace `$name` by the variable's value only when they are given the table;
+    `expr.list(None)` looks at the raw expression. A function that has the table (a `vars` parameter or the ParserState)
+    and still passes `None` reads `$name` literally: `(concat $prefix 1)` with `(defvar prefix (f))` silently loses the
+    list and yields `1`. Rule: in functions of the parser that receive the table or the ParserState, atom / list /
+    span_list are called with the table, except at the reviewed keyword positions."""
+    from kq.core import Resolver
+    res = RuleResult("R-VARS-PASSED", "functions that have the variable table pass it to atom() / list()", floor=30)
+    ACC = {CFG + "sexpr::SExpr::atom", CFG + "sexpr::SExpr::list", CFG + "sexpr::SExpr::span_list"}
+    for f in sorted(prog.fns.values(), key=lambda x: x.norm):
+        if f.crate != "kanata_parser" or f.derive:
+            continue
+        has = any("HashMap<alloc::string::String, kanata_parser::cfg::sexpr::SExpr" in (f.local_ty(i) or "") or
+                  "ParserState" in (f.local_ty(i) or "") for i in range(1, f.nargs + 1))
+        if not has:
+            continue
+        none_sites, with_sites = [], 0
+        for bi, t in f.calls():
+            if (callee_name(t) or "") not in ACC or len(t["args"]) < 2:
+                continue
+            r = Resolver(f).root(t["args"][1])
+            if (r[0] == "agg" and r[1][2].get("v") == "None") or r[0] == "const":
+                none_sites.append(t.get("ln"))
+            else:
+                with_sites += 1
+        if not none_sites and not with_sites:
+            continue
+        allowed = VARS_NONE_OK.get(f.norm.split("::{closure")[0], (0, ""))[0] if "{closure" not in f.norm else 0
+        allowed = VARS_NONE_OK.get(f.norm, (0, ""))[0]
+        ok = len(none_sites) <= allowed
+        key = f.norm.split("cfg::")[-1]
+        res.fn(f)
+        res.inst(key, where=f.loc, with_table=with_sites, without=len(none_sites), reviewed_without=allowed, ok=ok)
+        res.oblige(ok)
+        if not ok:
+            res.viol(key, "%s:%s" % (f.file, none_sites[-1]),
+                     "%s has the variable table (a `vars` parameter or the ParserState) but reads an expression with atom(None) / list(None) "
+                     "(lines %s; %d reviewed): a `$name` at that position is taken literally instead of being replaced by the variable's "
+                     "value - the configuration with the variable behaves differently from the one with the value written out"
+                     % (f.norm.split("::")[-1], none_sites, allowed))
+    return res
